@@ -19,6 +19,12 @@ HasBox(bo) == bo # <<>>
 
 \* textbook: the difference vector; with a box, a shortest periodic image of it
 Dom_Box(B) == IsBox(B)
+(* the determinant is a power of two: the fractional coordinates of integer points (adjugate /
+   determinant) are dyadic, so float32/float64 compute them exactly.  With any other
+   determinant a point lying exactly ON a box face gets the fraction 0 or -3e-17 depending on
+   rounding (reproduced: box ((4,0,0),(2,12,2),(0,0,4)), point (-2,-12,-2)), and which of the
+   two lattice-equivalent placements move_inside_box / remove_pbc choose is unspecified. *)
+Dom_DyadicBox(B) == Abs(Det(B)) \in {2^k : k \in 0..24}
 IsShortestImage(v, d, B) == IsLatticeVec(VSub(v, d), B) /\ Norm2(v) = MinImageN2(d, B, 2)
 \* the minimum image is unique (the range in which the property demands minimality for
 \* triclinic boxes is contained in this)
@@ -139,14 +145,17 @@ CentroidOnFace(U, B) ==
 RemovePbcMolecule(C, B) ==
   LET U == RemovePbcFromCoord(C, B)  sh == CentroidShift(U, B)
   IN [k \in DOMAIN U |-> VAdd(U[k], sh)]
-RemovePbc(C, bonds, B) ==
+RemovePbc(C, bonds, B) ==      \* (every molecule is reassembled once: the table is tabulated eagerly)
   LET mols == Molecules(Len(C), bonds)
+      tab == EagerFcn([M \in mols |-> EagerSeq(RemovePbcMolecule(SubSeqOf(C, M), B))])
       MolOf(k) == CHOOSE M \in mols : k \in M
       Pos(k, M) == Cardinality({j \in M : j <= k})
-  IN [k \in DOMAIN C |-> RemovePbcMolecule(SubSeqOf(C, MolOf(k)), B)[Pos(k, MolOf(k))]]
+  IN EagerSeq([k \in DOMAIN C |-> tab[MolOf(k)][Pos(k, MolOf(k))]])
 
-\* "compact" molecule: every pair of its atoms is at its unique minimum-image separation
-Dom_Compact(T, B) ==
-  \A i, j \in DOMAIN T : i # j =>
-     LET d == VSub(T[j], T[i]) IN Norm2(d) = MinImageN2(d, B, 2) /\ UniqueMinImage(d, B)
+\* "compact" molecule: every pair of its atoms is at its unique minimum-image separation:
+\* the difference d is strictly shorter than each of its other images d + k.B, k in {-2..2}^3
+\* (symmetric in d and -d; S1 decides that the code-shaped displacement then returns d)
+NonZeroCoeffs2 == Cube(-2, 2) \ {Zero3}
+IsStrictlyShortest(d, B) == \A k \in NonZeroCoeffs2 : Norm2(VAdd(d, LatVec(k, B))) > Norm2(d)
+Dom_Compact(T, B) == \A i, j \in DOMAIN T : i < j => IsStrictlyShortest(VSub(T[j], T[i]), B)
 =============================================================================
